@@ -54,6 +54,15 @@ def cases(chk, env):
         sp["pool"] = rng.choice([1, 1, 2, 3])
         out.append(sp)
         n += 1
+    # second runs: some steps are skipped, the others still share the pool
+    n = 0
+    while n < (10 if tier == "quick" else 80):
+        sp = S.two_run_spec(rng, label="tworun")
+        if S.k_glob_absent(sp):
+            continue
+        sp["pool"] = rng.choice([1, 1, 2])
+        out.append(sp)
+        n += 1
     return out
 
 
@@ -66,7 +75,9 @@ def judge_order_pool1(sp, rr):
     """pool 1: the commands run one after another, in an order compatible with the graph."""
     if sp["pool"] != 1:
         return []
-    return [(w, None) for w, e in S.oracle_c10(sp, rr) if "started before" in w]
+    # (an edge that exists only through a glob on a not yet existing output is C10's open finding P16
+    #  and is judged there; the generator below avoids such graphs anyway)
+    return [(w, None) for w, e in S.oracle_c10(sp, rr) if "started before" in w and not (e and S.glob_only_edge(sp, e))]
 
 
 def run(chk, replay=None):
@@ -79,9 +90,10 @@ def run(chk, replay=None):
         chk.proof()
         S.probe_p13(env)
         specs = [replay["input"]] if replay else cases(chk, env)
-        stats, rrs, infos = S.drive(chk, env, "C13", specs, nontrivial)
+        stats, rrs, infos, specs = S.drive(chk, env, "C13", specs, nontrivial)
         for sp, rr in zip(specs, rrs):
             for what, _ in judge_order_pool1(sp, rr)[:1]:
+                sp = sp.get("_origin") or sp
                 chk.fail("oracle", "process_pool_size=1: " + what, {"input": S.strip_spec(sp), "journal": rr.journal, "kind": "impl-history"}, name="order")
         reached = sum(1 for sp, rr in zip(specs, rrs) if S.oracle_c13(sp, rr)[0] == sp["pool"])
         stats["runs_where_overlap_reached_pool"] = reached
